@@ -1,7 +1,7 @@
 """Independent writer of layer group files (.lgb) WITH layers and instance objects (see spec/LayerGroup.tla).
 group = {"file_id","chunk_id","group","name": bytes, "layers": [layer]}
 layer = {"id","name": bytes,"flags":[4 bools],"festival":(id, phase),"temporary","housing","mask","sets":(type 0..3,[u32..]),"objects":[obj]}
-obj   = {"type": 5|40, "id", "name": bytes, "transform":[9 u32 bit patterns], "data": [...]}
+obj   = {"type": 5|13|40|41, "id", "name": bytes, "transform":[9 u32 bit patterns], "data": [...]}
    type 5: data = [kind 1..4, jp offset, en offset];  type 40: data = [kind 1..3, pos, count, ratio bits, index]"""
 import struct
 
@@ -11,8 +11,12 @@ def obj_bytes(o, rng):
     d = o["data"]
     if o["type"] == 5:
         body += struct.pack("<iII", *d)
-    else:
+    elif o["type"] == 40:
         body += struct.pack("<iiiIB", *d) + bytes(rng.randrange(256) for _ in range(3)) + struct.pack("<I", rng.getrandbits(32))
+    elif o["type"] == 13:      # asset, bound, shape, flag, priority, range, interpolation, reverb, filter, sound
+        body += struct.pack("<IIiBB", *d[:5]) + bytes(rng.randrange(256) for _ in range(2)) + struct.pack("<IiIII", *d[5:])
+    else:                      # 41: box shape, priority, enabled | kind, zone, territory, index, destination, return, direction
+        body += struct.pack("<ihB", *d[:3]) + bytes(rng.randrange(256) for _ in range(5)) + struct.pack("<iHHiIII", *d[3:]) + struct.pack("<I", rng.getrandbits(32))
     pad = bytes(rng.randrange(1, 256) for _ in range(rng.randrange(0, 6)))
     name_off = len(body) + len(pad)
     body = body[:8] + struct.pack("<I", name_off) + body[12:]
@@ -74,7 +78,16 @@ def random_group(rng):
     for _ in range(rng.choice([0, 1, 1, 2, 3, 5])):
         objs = []
         for _ in range(rng.choice([0, 1, 2, 3, 6])):
-            if rng.random() < 0.5:
+            r = rng.random()
+            if r < 0.2:
+                objs.append({"type": 13, "id": rng.getrandbits(32), "name": name(0, 9), "transform": [f32() for _ in range(9)],
+                             "data": [rng.getrandbits(32), rng.getrandbits(32), rng.randint(1, 3), rng.choice([0, 1]), rng.randrange(256),
+                                      f32(), rng.randrange(-2**31, 2**31), f32(), f32(), rng.getrandbits(32)]})
+            elif r < 0.4:
+                objs.append({"type": 41, "id": rng.getrandbits(32), "name": name(0, 9), "transform": [f32() for _ in range(9)],
+                             "data": [rng.randint(1, 6), rng.randrange(-32768, 32768), rng.choice([0, 1]), 1, rng.getrandbits(16), rng.getrandbits(16),
+                                      rng.randrange(-2**31, 2**31), rng.getrandbits(32), rng.getrandbits(32), f32()]})
+            elif r < 0.7:
                 objs.append({"type": 5, "id": rng.getrandbits(32), "name": name(0, 9), "transform": [f32() for _ in range(9)],
                              "data": [rng.randint(1, 4), rng.getrandbits(32), rng.getrandbits(32)]})
             else:
